@@ -709,6 +709,9 @@ def run(ctx: Ctx):
     from harness.props import C03_hard3
 
     C03_hard3.run_hard3(ctx)
+    from harness.props import C03_hard4
+
+    C03_hard4.run_hard4(ctx)
 
     # ---- something no longer checks but the oracle found no failing input: search, then report
     if (disagree or cert_disagree or gate_bad or ctx.broken) and not ctx.violations:
